@@ -97,13 +97,165 @@ def rand_gene_layer_case(rng, root):
         if spec is None:
             continue
         add_reserved_qualifiers(rng, spec, root)
+        add_product_qualifiers(rng, spec, root)
+        cut = "whole"
+        if parent["mode"] in ("chunk", "chunk-minus", "chrom") and rng.random() < (0.55 if parent["mode"] != "chrom" else 0.3):
+            cut = cut_window(rng, parent, spec, root)
         if parent["mode"] in ("chrom", "chunk", "chunk-minus"):
             for t in ([spec] if root in ("tx", "cds") else spec.get("transcripts", []) if root == "gene" else
                       [t for g in spec.get("genes", []) for t in g["transcripts"]] if root == "coll" else []):
                 if t.get("cds") and rng.random() < 0.6:
                     engineer_cds(rng, parent, t)
-        return {"kind": root, "spec": spec, "parent": parent, "seqname": seqname, "hostile": c["hostile"]}
+        return {"kind": root, "spec": spec, "parent": parent, "seqname": seqname, "hostile": c["hostile"], "cut": cut}
     raise RuntimeError("generator could not produce a root of kind " + root)
+
+
+def _spans_of(spec, root, rng):
+    """(blocks of one member of the root, chosen at random) - the object the chunk window is going to cut."""
+    if root in ("tx", "cds"):
+        return spec["cds"] if (root == "cds" or (spec.get("cds") and rng.random() < 0.5)) else spec["exons"]
+    if root == "feat":
+        return spec["blocks"]
+    if root == "var":
+        return [[spec["start"], spec["end"]]]
+    if root == "vcoll":
+        v = rng.choice(spec["variants"])
+        return [[v["start"], v["end"]]]
+    if root == "gene":
+        return _spans_of(rng.choice(spec["transcripts"]), "tx", rng)
+    if root == "fcoll":
+        return rng.choice(spec["features"])["blocks"]
+    if root == "coll":
+        pool = [("gene", g) for g in spec.get("genes", [])] + [("fcoll", f) for f in spec.get("fcolls", [])]
+        if not pool:
+            return None
+        k, sub = rng.choice(pool)
+        return _spans_of(sub, k, rng)
+    return None
+
+
+def cut_window(rng, parent, spec, root):
+    """Replace the chunk window of the parent by one that CUTS the root (or one of its members): at its left / right end,
+    at both ends, down to an intron only, or missing it altogether.  A chromosome parent becomes a chunk parent.  Whether
+    the library accepts such an object is its business (a refusal of the constructor is skipped and counted)."""
+    blocks = _spans_of(spec, root, rng)
+    if not blocks:
+        return "whole"
+    glen = len(parent["genome"])
+    lo, hi = min(b[0] for b in blocks), max(b[1] for b in blocks)
+    introns = [(a[1], b[0]) for a, b in zip(blocks, blocks[1:]) if b[0] - a[1] >= 1]
+    how = rng.choice(["left", "right", "both", "intron", "miss", "block-edge"])
+    if how == "intron" and not introns:
+        how = "left"
+    if how == "miss" and lo < 2 and glen - hi < 2:
+        how = "right"
+    if hi - lo < 2 and how in ("left", "right", "both", "block-edge"):
+        how = "miss" if (lo >= 2 or glen - hi >= 2) else "whole"
+    if how == "left":
+        w = [rng.randint(lo + 1, hi - 1), rng.randint(hi, glen)]
+    elif how == "right":
+        w = [rng.randint(0, lo), rng.randint(lo + 1, hi - 1)]
+    elif how == "both":
+        a = rng.randint(lo + 1, hi - 1)
+        w = [a, rng.randint(a + 1, hi)] if a + 1 <= hi else [a - 1, a]
+    elif how == "block-edge":
+        # the window ends exactly on a block boundary (a whole exon is dropped, nothing is split)
+        edges = sorted({b[0] for b in blocks[1:]} | {b[1] for b in blocks[:-1]}) or [rng.randint(lo + 1, hi - 1)]
+        e = rng.choice(edges)
+        w = [e, rng.randint(max(e + 1, hi), glen)] if rng.random() < 0.5 else [rng.randint(0, lo), e]
+    elif how == "intron":
+        a, b = rng.choice(introns)
+        x = rng.randint(a, b - 1)
+        w = [x, rng.randint(x + 1, b)]
+    elif how == "miss":
+        if lo >= 2 and (glen - hi < 2 or rng.random() < 0.5):
+            x = rng.randint(0, lo - 2)
+            w = [x, rng.randint(x + 1, lo - 1 if rng.random() < 0.5 else lo)]
+        else:
+            x = rng.randint(hi if rng.random() < 0.5 else hi + 1, glen - 1)
+            w = [x, rng.randint(x + 1, glen)]
+    else:
+        return "whole"
+    if not (0 <= w[0] < w[1] <= glen):
+        return "whole"
+    parent["window"] = w
+    if parent["mode"] == "chrom":
+        parent["mode"] = rng.choice(["chunk", "chunk", "chunk-minus"])
+    if root == "coll" and rng.random() < 0.6:
+        spec["start"], spec["end"] = None, None   # bounds follow the chunk; explicit bounds that contradict it are kept sometimes
+    return how
+
+
+RNA_PRODUCTS = ["16S_ribosomal RNA", "23S ribosomal RNA", "5S_rRNA", "tRNA-Ala", "RNase P", "signal recognition particle RNA"]
+
+
+def add_product_qualifiers(rng, spec, root):
+    """`product` qualifiers on coding and non-coding transcripts (and a gene-level one sometimes): the table / GenBank
+    exporters consume them, so an exporter that edits the caller's model shows."""
+    def tx(t):
+        if rng.random() < 0.5:
+            q = dict(t.get("qualifiers") or {})
+            q["product"] = [rng.choice(RNA_PRODUCTS)] if not t.get("cds") else ["hypothetical_protein " + str(rng.randint(0, 9))]
+            t["qualifiers"] = q
+
+    def gene(g):
+        for t in g["transcripts"]:
+            tx(t)
+        if rng.random() < 0.2:
+            q = dict(g.get("qualifiers") or {})
+            q["product"] = ["gene-level product"]
+            g["qualifiers"] = q
+
+    if root == "tx":
+        tx(spec)
+    elif root == "gene":
+        gene(spec)
+    elif root == "coll":
+        for g in spec.get("genes", []):
+            gene(g)
+
+
+def rand_exportable_collection_case(rng):
+    """An annotation collection tuned so that the file exporters (tbl in both flavours, GFF3, GenBank) accept it most of the
+    time: chromosome parent with sequence, sequence name, plain ASCII qualifiers without reserved GFF3 keys, disjoint genes -
+    unspliced and spliced, coding (engineered CDS) and rRNA / tRNA / ncRNA / misc_RNA with a product qualifier - and
+    sometimes a feature collection."""
+    from bcv.gen import genes as GG
+
+    glen = rng.choice([120, 300])
+    seqname = rng.choice(["chr1", "chrX", "NC_000913.3"])
+    genome = "".join(rng.choice("ACGT") for _ in range(glen))
+    parent = {"mode": rng.choice(["chrom", "chrom", "chrom", "chrom", "chunk"]), "genome": genome, "seqname": seqname, "window": [0, glen],
+              "alphabet": rng.choice(["NT_EXTENDED_GAPPED", "NT_STRICT"])}
+    coll = GG.rand_collection_spec(random.Random(rng.getrandbits(64)), glen, ngenes=rng.randint(2, 4), nfcolls=rng.choice([0, 0, 1]), seqname=seqname,
+                                   disjoint=True, qualifiers=False, max_exons=rng.choice([1, 1, 3]))
+    coll["vcolls"] = []
+    for g in coll["genes"]:
+        coding = any(t.get("cds") for t in g["transcripts"])
+        if coding:
+            # the table writer treats a gene as coding or not as a whole: no non-coding isoforms in coding genes
+            g["transcripts"] = [t for t in g["transcripts"] if t.get("cds")]
+            g["gene_type"] = "protein_coding"
+        if not coding:
+            g["gene_type"] = rng.choice(["rRNA", "rRNA", "tRNA", "ncRNA", "misc_RNA", "lncRNA"])
+        g["qualifiers"] = rng.choice([{}, {"note": ["n1"]}, {"db_xref": ["GeneID:12"], "gene_synonym": ["syn1", "syn2"]}])
+        for t in g["transcripts"]:
+            t["sequence_name"] = seqname
+            if not t.get("cds"):
+                t["transcript_type"] = g["gene_type"]
+            q = {"note": ["tx note"]} if rng.random() < 0.3 else {}
+            if rng.random() < 0.75:
+                q["product"] = [rng.choice(RNA_PRODUCTS)] if not t.get("cds") else ["hypothetical_protein"]
+            t["qualifiers"] = q
+            if t.get("cds") and rng.random() < 0.8:
+                engineer_cds(rng, parent, t)
+    for fc in coll["fcolls"]:
+        fc["qualifiers"] = {}
+        for f in fc["features"]:
+            f["qualifiers"] = rng.choice([{}, {"note": ["f"]}])
+    coll["qualifiers"] = {}
+    coll["name"] = "exportable"
+    return {"kind": "coll", "spec": coll, "parent": parent, "seqname": seqname, "hostile": False, "cut": "whole", "flavour": "exportable"}
 
 
 def engineer_cds(rng, parent, t):
@@ -854,6 +1006,9 @@ def _interval_catalogue(obj, cn, case, path, rebuild):
             add(f"get_children_by_type({t})", (lambda t_: lambda o, a: o.get_children_by_type(t_))(t))
         add("to_dict(export_parent)", lambda o, a: o.to_dict(export_parent=True))
         add("to_gff(no-raise)", lambda o, a: o.to_gff(raise_on_reserved_attributes=False), hot=True)
+        for nm, fn in EXPORTERS.items():
+            add(nm, (lambda f: lambda o, a: f(o))(fn), hot=True)
+            add(nm + " x2", (lambda f: lambda o, a: [f(o), f(o)])(fn), hot=True)
         add("pickle-roundtrip", lambda o, a: pickle.loads(pickle.dumps(o)))
         add("schema-load(to_dict)", lambda o, a: _schema_roundtrip(o))
         add("guid_map", lambda o, a: o.guid_map)
@@ -863,6 +1018,42 @@ def _interval_catalogue(obj, cn, case, path, rebuild):
         if mkv is not None:
             add("incorporate_variants(vcoll)", lambda o, a: o.incorporate_variants(a["variants"]), mkv)
     return A
+
+
+def _export(which, **kw):
+    """File exporters of inscripta.biocantor.io writing into an io.StringIO; the answer is the text."""
+    import io
+
+    def run(o):
+        from inscripta.biocantor.io.genbank.constants import GenbankFlavor
+        from inscripta.biocantor.io.genbank.writer import collection_to_genbank
+        from inscripta.biocantor.io.gff3.writer import collection_to_gff3
+        from inscripta.biocantor.io.ncbi.tbl_writer import collection_to_tbl
+
+        fh = io.StringIO()
+        if which == "tbl":
+            collection_to_tbl([o], fh, locus_tag_prefix="LTP", submitter_lab_name="lab", genbank_flavor=GenbankFlavor[kw["flavor"]])
+        elif which == "tbl-seeded":
+            collection_to_tbl([o], fh, random_seed=11, genbank_flavor=GenbankFlavor[kw["flavor"]])
+        elif which == "gff3":
+            collection_to_gff3([o], fh, **kw)
+        elif which == "genbank":
+            collection_to_genbank([o], fh, genbank_type=GenbankFlavor[kw["flavor"]], update_translations=kw.get("update", False))
+        return fh.getvalue()
+
+    return run
+
+
+EXPORTERS = {
+    "collection_to_tbl(EUKARYOTIC)": _export("tbl", flavor="EUKARYOTIC"),
+    "collection_to_tbl(PROKARYOTIC)": _export("tbl", flavor="PROKARYOTIC"),
+    "collection_to_tbl(seed=11)": _export("tbl-seeded", flavor="EUKARYOTIC"),
+    "collection_to_gff3()": _export("gff3"),
+    "collection_to_gff3(no-raise,unordered)": _export("gff3", raise_on_reserved_attributes=False, ordered=False),
+    "collection_to_gff3(sequences,chunk-relative)": _export("gff3", add_sequences=True, chromosome_relative_coordinates=False, raise_on_reserved_attributes=False),
+    "collection_to_genbank(PROKARYOTIC)": _export("genbank", flavor="PROKARYOTIC"),
+    "collection_to_genbank(EUKARYOTIC,translations)": _export("genbank", flavor="EUKARYOTIC", update=True),
+}
 
 
 def _safe_list(fn, *args):
